@@ -1,9 +1,9 @@
 // Independent list model for pkg/slice, written from the F# List module
 // documentation (the specification pkg/slice cites), with plain index loops.
 // Nothing here imports or imitates pkg/slice.
-package c13
+package listmodel
 
-func mLength[T any](s []T) int {
+func MLength[T any](s []T) int {
 	n := 0
 	for range s {
 		n++
@@ -11,27 +11,27 @@ func mLength[T any](s []T) int {
 	return n
 }
 
-func mItem[T any](i int, s []T) T { return s[i] }
-func mHead[T any](s []T) T        { return s[0] }
-func mLast[T any](s []T) T        { return s[mLength(s)-1] }
+func MItem[T any](i int, s []T) T { return s[i] }
+func MHead[T any](s []T) T        { return s[0] }
+func MLast[T any](s []T) T        { return s[MLength(s)-1] }
 
-func mTail[T any](s []T) []T {
+func MTail[T any](s []T) []T {
 	out := make([]T, 0)
-	for i := 1; i < mLength(s); i++ {
+	for i := 1; i < MLength(s); i++ {
 		out = append(out, s[i])
 	}
 	return out
 }
 
-func mPopLast[T any](s []T) []T {
+func MPopLast[T any](s []T) []T {
 	out := make([]T, 0)
-	for i := 0; i+1 < mLength(s); i++ {
+	for i := 0; i+1 < MLength(s); i++ {
 		out = append(out, s[i])
 	}
 	return out
 }
 
-func mTake[T any](n int, s []T) []T {
+func MTake[T any](n int, s []T) []T {
 	out := make([]T, 0)
 	for i := 0; i < n; i++ {
 		out = append(out, s[i])
@@ -39,49 +39,49 @@ func mTake[T any](n int, s []T) []T {
 	return out
 }
 
-func mSkip[T any](n int, s []T) []T {
+func MSkip[T any](n int, s []T) []T {
 	out := make([]T, 0)
-	for i := n; i < mLength(s); i++ {
+	for i := n; i < MLength(s); i++ {
 		out = append(out, s[i])
 	}
 	return out
 }
 
-func mPushHead[T any](e T, s []T) []T {
+func MPushHead[T any](e T, s []T) []T {
 	out := []T{e}
-	for i := 0; i < mLength(s); i++ {
+	for i := 0; i < MLength(s); i++ {
 		out = append(out, s[i])
 	}
 	return out
 }
 
-func mPushLast[T any](e T, s []T) []T {
+func MPushLast[T any](e T, s []T) []T {
 	out := make([]T, 0)
-	for i := 0; i < mLength(s); i++ {
+	for i := 0; i < MLength(s); i++ {
 		out = append(out, s[i])
 	}
 	return append(out, e)
 }
 
-func mMap[T, U any](f func(T) U, s []T) []U {
+func MMap[T, U any](f func(T) U, s []T) []U {
 	out := make([]U, 0)
-	for i := 0; i < mLength(s); i++ {
+	for i := 0; i < MLength(s); i++ {
 		out = append(out, f(s[i]))
 	}
 	return out
 }
 
-func mMapi[T, U any](f func(int, T) U, s []T) []U {
+func MMapi[T, U any](f func(int, T) U, s []T) []U {
 	out := make([]U, 0)
-	for i := 0; i < mLength(s); i++ {
+	for i := 0; i < MLength(s); i++ {
 		out = append(out, f(i, s[i]))
 	}
 	return out
 }
 
-func mFilter[T any](p func(T) bool, s []T) []T {
+func MFilter[T any](p func(T) bool, s []T) []T {
 	out := make([]T, 0)
-	for i := 0; i < mLength(s); i++ {
+	for i := 0; i < MLength(s); i++ {
 		if p(s[i]) {
 			out = append(out, s[i])
 		}
@@ -89,59 +89,59 @@ func mFilter[T any](p func(T) bool, s []T) []T {
 	return out
 }
 
-func mAppend[T any](a, b []T) []T {
+func MAppend[T any](a, b []T) []T {
 	out := make([]T, 0)
-	for i := 0; i < mLength(a); i++ {
+	for i := 0; i < MLength(a); i++ {
 		out = append(out, a[i])
 	}
-	for i := 0; i < mLength(b); i++ {
+	for i := 0; i < MLength(b); i++ {
 		out = append(out, b[i])
 	}
 	return out
 }
 
-func mConcat[T any](ss [][]T) []T {
+func MConcat[T any](ss [][]T) []T {
 	out := make([]T, 0)
 	for i := 0; i < len(ss); i++ {
-		out = mAppend(out, ss[i])
+		out = MAppend(out, ss[i])
 	}
 	return out
 }
 
-func mCollect[T, U any](f func(T) []U, s []T) []U {
+func MCollect[T, U any](f func(T) []U, s []T) []U {
 	out := make([]U, 0)
-	for i := 0; i < mLength(s); i++ {
-		out = mAppend(out, f(s[i]))
+	for i := 0; i < MLength(s); i++ {
+		out = MAppend(out, f(s[i]))
 	}
 	return out
 }
 
-type pair[T, U any] struct {
+type Pair[T, U any] struct {
 	A T
 	B U
 }
 
-func mZip[T, U any](a []T, b []U) []pair[T, U] {
-	out := make([]pair[T, U], 0)
-	for i := 0; i < mLength(a); i++ {
-		out = append(out, pair[T, U]{a[i], b[i]})
+func MZip[T, U any](a []T, b []U) []Pair[T, U] {
+	out := make([]Pair[T, U], 0)
+	for i := 0; i < MLength(a); i++ {
+		out = append(out, Pair[T, U]{a[i], b[i]})
 	}
 	return out
 }
 
-func mFold[T, S any](f func(S, T) S, init S, s []T) S {
+func MFold[T, S any](f func(S, T) S, init S, s []T) S {
 	acc := init
-	for i := 0; i < mLength(s); i++ {
+	for i := 0; i < MLength(s); i++ {
 		acc = f(acc, s[i])
 	}
 	return acc
 }
 
-// mScan models Forall/Forany/TryFind: the predicate is applied left to right
+// MScan models Forall/Forany/TryFind: the predicate is applied left to right
 // and no further element is tested once the answer is known. It returns the
 // index of the deciding element (or -1) and the number of predicate calls.
-func mScan[T any](p func(T) bool, s []T, stopOn bool) (idx int, calls int) {
-	for i := 0; i < mLength(s); i++ {
+func MScan[T any](p func(T) bool, s []T, stopOn bool) (idx int, calls int) {
+	for i := 0; i < MLength(s); i++ {
 		calls++
 		if p(s[i]) == stopOn {
 			return i, calls
@@ -150,9 +150,9 @@ func mScan[T any](p func(T) bool, s []T, stopOn bool) (idx int, calls int) {
 	return -1, calls
 }
 
-func mDistinct[T comparable](s []T) []T {
+func MDistinct[T comparable](s []T) []T {
 	out := make([]T, 0)
-	for i := 0; i < mLength(s); i++ {
+	for i := 0; i < MLength(s); i++ {
 		seen := false
 		for j := 0; j < len(out); j++ {
 			if out[j] == s[i] {
@@ -166,9 +166,9 @@ func mDistinct[T comparable](s []T) []T {
 	return out
 }
 
-// isPermutation: same multiset.
-func isPermutation[T comparable](a, b []T) bool {
-	if mLength(a) != mLength(b) {
+// IsPermutation: same multiset.
+func IsPermutation[T comparable](a, b []T) bool {
+	if MLength(a) != MLength(b) {
 		return false
 	}
 	used := make([]bool, len(b))
@@ -188,8 +188,8 @@ func isPermutation[T comparable](a, b []T) bool {
 	return true
 }
 
-func eqSlice[T comparable](a, b []T) bool {
-	if mLength(a) != mLength(b) {
+func EqSlice[T comparable](a, b []T) bool {
+	if MLength(a) != MLength(b) {
 		return false
 	}
 	for i := range a {
